@@ -964,43 +964,115 @@ def _run_model(case, ctx):
     freq = np.r_[1, rng.integers(2, fmax + 1, size=case["ncomp"] - 1)] if fmax >= 2 else np.array([1])
     amp = rng.uniform(0.2, 1.0, size=freq.size)
     phase = rng.uniform(-np.pi, np.pi, size=freq.size)
-    spike = od.sines(n, freq, amp, phase, 0, 0.0)
+    sdt = case.get("sdtype", "f8")
+    spike = od.sines(n, freq, amp, phase, 0, 0.0).astype(DT[sdt])
     wxy = np.c_[rng.choice([11.0, 27.0, 43.0, 59.0], size=ntr), 20.0 * rng.integers(80, 110, size=ntr), np.zeros(ntr)]
     sxy = None if case["default_sxy"] else np.array([rng.uniform(0, 70), rng.uniform(1600, 2200), rng.uniform(0, 30)])
-    ctx.label("model", "model_1trace" if ntr == 1 else "model_multi")
+    ro, wlay, extra = bool(case.get("ro", False)), case.get("wlayout", "C"), case.get("extra")
+    ctx.label("model", "model_1trace" if ntr == 1 else "model_multi", "spike_" + sdt, "wxy_" + wlay,
+              "args_readonly" if ro else "args_writeable", "model_" + (extra or "plain"),
+              "repeat1" if case.get("rep") else "repeat0")
     if ntr > 1:
         ctx.nontrivial = True
     gen = sut.model().generate_waveform
-    kw = dict(spike=spike.copy(), sxy=sxy, wxy=wxy.copy(), fs=case["fs"], vertical_velocity_mps=case["vel"],
-              decay_exponent=case["decay"])
+    tol = 1e-9 if sdt == "f8" else 1e-5  # float32 spike = closed form rounded to 6e-8 x amplitude (measured 5.5e-7)
+
+    def hold(a, layout="C"):
+        if a is None:
+            return None
+        a = _layout(np.array(a, copy=True), layout)
+        if ro:
+            a.flags.writeable = False
+        return a
+
+    def delayed_copies(out, what):
+        """every row of out is a scaled, exactly delayed copy of the spike"""
+        t = np.arange(n)
+        worst = 0.0
+        for j in range(out.shape[0]):
+            b1 = np.sum(out[j] * np.exp(-2j * np.pi * t / n))
+            alpha = abs(b1) * 2 / (n * amp[0])
+            tau = (phase[0] - np.angle(b1)) * n / (2 * np.pi)
+            k, f = od.split_shift(tau)
+            e = alpha * od.sines(n, freq, amp, phase, k, f)
+            worst = max(worst, _err(out[j], e) / max(alpha, 1e-300))
+        ctx.stat("err_model_delay_" + sdt, worst)
+        ctx.check(worst <= tol, "C07.model_delay",
+                  lambda: f"{what}: a generated trace is not a delayed scaled copy of the spike (relative deviation "
+                          f"{worst:.3g})")
+
+    def is_waveform(out, nrows, ncols, what):
+        return ctx.check(isinstance(out, np.ndarray) and out.ndim == 2 and out.dtype.kind == "f"
+                         and (nrows is None or out.shape[0] == nrows) and (ncols is None or out.shape[1] == ncols)
+                         and out.size > 0 and bool(np.all(np.isfinite(out))), "C07.model_shape",
+                         lambda: f"{what} returns {type(out).__name__} of shape {getattr(out, 'shape', None)}, expected "
+                                 f"{nrows} traces x {ncols} samples of finite floats")
+
+    kw = dict(spike=hold(spike), sxy=hold(sxy), wxy=hold(wxy, wlay), fs=case["fs"],
+              vertical_velocity_mps=case["vel"], decay_exponent=case["decay"])
     out = ctx.call("C07.model", gen, **kw)
     if out is ctx.CRASH:
         return
-    if not ctx.check(isinstance(out, np.ndarray) and out.shape == (ntr, n), "C07.model_shape",
-                     lambda: f"generate_waveform returns shape {getattr(out, 'shape', None)} for {ntr} traces x {n} samples"):
+    if not is_waveform(out, ntr, n, "generate_waveform"):
         return
-    t = np.arange(n)
-    worst = 0.0
-    for j in range(ntr):
-        b1 = np.sum(out[j] * np.exp(-2j * np.pi * t / n))
-        alpha = abs(b1) * 2 / (n * amp[0])
-        tau = (phase[0] - np.angle(b1)) * n / (2 * np.pi)
-        k, f = od.split_shift(tau)
-        e = alpha * od.sines(n, freq, amp, phase, k, f)
-        worst = max(worst, _err(out[j], e) / max(alpha, 1e-300))
-    ctx.stat("err_model_delay", worst)
-    ctx.check(worst <= 1e-9, "C07.model_delay",
-              lambda: f"a generated trace is not a delayed scaled copy of the spike (relative deviation {worst:.3g})")
+    delayed_copies(out, "generate_waveform")
+    scale = float(np.max(np.abs(out)))
+    if case.get("rep"):
+        # the same argument objects once more: the answer computed from the untouched copies must come back
+        out_r = ctx.call("C07.model", gen, **kw)
+        if out_r is ctx.CRASH:
+            return
+        if is_waveform(out_r, ntr, n, "generate_waveform (second call with the same argument objects)"):
+            er = _err(out_r, out) / scale
+            ctx.check(er <= 1e-12, "C07.repeat_call",
+                      lambda: f"generate_waveform called again with the same argument objects: result differs by "
+                              f"{er:.3g} of its amplitude")
+            delayed_copies(out_r, "generate_waveform (second call with the same argument objects)")
     if ntr > 1:
         perm = rng.permutation(ntr)
-        kw2 = dict(kw, spike=spike.copy(), wxy=wxy[perm].copy())
+        kw2 = dict(kw, spike=hold(spike), wxy=hold(wxy[perm], wlay))
         out2 = ctx.call("C07.model", gen, **kw2)
         if out2 is ctx.CRASH:
             return
-        ep = _err(out2, out[perm]) / float(np.max(np.abs(out)))
+        if not is_waveform(out2, ntr, n, "generate_waveform (permuted coordinates)"):
+            return
+        ep = _err(out2, out[perm]) / scale
         ctx.stat("err_model_perm", ep)
-        ctx.check(np.shape(out2) == out.shape and ep <= 1e-9, "C07.model_perm",
+        ctx.check(ep <= 1e-9, "C07.model_perm",
                   lambda: f"permuting the trace coordinates does not permute the generated traces (deviation {ep:.3g})")
+    if extra == "omit":
+        # fs, vertical_velocity_mps, decay_exponent left out == the defaults of the signature spelled out
+        base = dict(spike=hold(spike), sxy=hold(sxy), wxy=hold(wxy, wlay))
+        o1 = ctx.call("C07.model", gen, **base)
+        o2 = ctx.call("C07.model", gen, **base, fs=30000, vertical_velocity_mps=3, decay_exponent=3.0)
+        if o1 is ctx.CRASH or o2 is ctx.CRASH:
+            return
+        if is_waveform(o1, ntr, n, "generate_waveform (defaults)") and is_waveform(o2, ntr, n, "generate_waveform"):
+            delayed_copies(o1, "generate_waveform with fs, velocity and decay left at their defaults")
+            ed = _err(o1, o2) / float(np.max(np.abs(o2)))
+            ctx.check(ed <= 1e-12, "C07.model_defaults",
+                      lambda: f"fs / vertical_velocity_mps / decay_exponent omitted differs from fs=30000, "
+                              f"vertical_velocity_mps=3, decay_exponent=3.0 by {ed:.3g} of the amplitude")
+    elif extra == "defwxy":
+        # default trace coordinates: still delayed scaled copies of the spike handed in
+        o1 = ctx.call("C07.model", gen, spike=hold(spike), fs=case["fs"], vertical_velocity_mps=case["vel"])
+        if o1 is ctx.CRASH:
+            return
+        if is_waveform(o1, None, n, "generate_waveform (default coordinates)"):
+            delayed_copies(o1, "generate_waveform with the default trace coordinates")
+    elif extra == "defspike" and ntr > 1:
+        # default spike: one row per coordinate, rows follow a permutation of the coordinates
+        perm = rng.permutation(ntr)
+        o1 = ctx.call("C07.model", gen, wxy=hold(wxy, wlay), sxy=hold(sxy))
+        o2 = ctx.call("C07.model", gen, wxy=hold(wxy[perm], wlay), sxy=hold(sxy))
+        if o1 is ctx.CRASH or o2 is ctx.CRASH:
+            return
+        if is_waveform(o1, ntr, None, "generate_waveform (default spike)") and \
+                is_waveform(o2, ntr, o1.shape[1], "generate_waveform (default spike, permuted coordinates)"):
+            ep = _err(o2, o1[perm]) / float(np.max(np.abs(o1)))
+            ctx.check(ep <= 1e-6, "C07.model_perm",
+                      lambda: f"default spike: permuting the trace coordinates does not permute the generated traces "
+                              f"(deviation {ep:.3g})")
 
 
 _MODES = {"basis": _run_basis, "sines": _run_sines, "corrmax": _run_corrmax, "cluster": _run_cluster,
